@@ -103,6 +103,7 @@ def norm(x):
         return tuple(norm(y) for y in x)
     if isinstance(x, str):
         import re
+        x = re.sub(r"\$got\d+", '$got', x)
         return re.sub(r"\((?:\d+, ?)*\d*\)", '()', x)
     return x
 
